@@ -396,6 +396,9 @@ def work(task):
             ('undefined-fn', 'nosuch(t(0), t(1))', [P(0), P(1)]), ('undefined-method', 't(0).nosuch(t(1))', [P(0), P(1)]),
             ('undefined-pipe', 't(0) | nosuch(t(1), t(2))', [P(0), P(1), P(2)]), ('non-callable', 'x(t(0), t(1))', [P(0), P(1)]),
             ('undefined-in-arg', 'f(t(0), nosuch(t(1)), t(2))', [P(0), P(1)]), ('callee-bound-by-arg', 'hd2(t(0))', [P(0)]),
+            ('pow-left-string', '"abc" ** t(0)', [P(0)]), ('mul-left-string', '"abc" * t(0)', [P(0)]), ('sub-left-none', 'None - t(0)', [P(0)]),
+            ('div-left-list', '[1] / t(0)', [P(0)]), ('lt-left-string', '"a" < t(0)', [P(0)]), ('pow-both', 't(0) ** t(1)', [P(0), P(1)]),
+            ('neg-then-pow', '(- "a") ** t(0)', []) if False else ('in-left-none', 'None in t(0)', [P(0)]),
             ('undefined-compound', 'nosuchvar += t(0)', [P(0)]), ('undefined-compound-mul', 'nosuchvar *= t(0) + t(1)', [P(0), P(1)]),
             ('missing-key-compound', 'hd["zz"] += t(0)', [P(0)]), ('missing-index-compound', 'hl[t(0)] -= t(1)', [P(0), P(1)]),
             ('undefined-index-target', 'nosuchvar[t(0)] = t(1)', [P(0), P(1)]) if False else ('compound-then-more', 'nosuchvar += t(0); t(1)', [P(0)]),
